@@ -71,6 +71,8 @@ type Builder struct {
 
 	// All comments from everywhere in every parsed file.
 	endLineToCommentGroup map[fileLine]*ast.CommentGroup
+	// The lines on which there is code.
+	codeLines map[fileLine]bool
 
 	// map of package to list of packages it imports.
 	importGraph map[importPathString]map[string]struct{}
@@ -111,6 +113,7 @@ func New() *Builder {
 		absPaths:              map[importPathString]string{},
 		userRequested:         map[importPathString]bool{},
 		endLineToCommentGroup: map[fileLine]*ast.CommentGroup{},
+		codeLines:             map[fileLine]bool{},
 		importGraph:           map[importPathString]map[string]struct{}{},
 	}
 }
@@ -213,9 +216,12 @@ func (b *Builder) addFile(pkgPath importPathString, path string, src []byte, use
 	b.userRequested[pkgPath] = userRequested || b.userRequested[pkgPath]
 
 	b.parsed[pkgPath] = append(b.parsed[pkgPath], parsedFile{path, p})
-	trailing := trailingComments(b.fset, p)
+	code := codeLines(b.fset, p)
+	for line := range code {
+		b.codeLines[fileLine{b.fset.Position(p.Package).Filename, line}] = true
+	}
 	for _, c := range p.Comments {
-		if trailing[c] {
+		if isTrailingComment(b.fset, code, c) {
 			continue
 		}
 		position := b.fset.Position(c.End())
@@ -234,12 +240,10 @@ func (b *Builder) addFile(pkgPath importPathString, path string, src []byte, use
 	return nil
 }
 
-// trailingComments returns the comment groups of f which start on a line on
-// which there is code before them (e.g. "X int // comment" or "var ( // comment").
-// Such a comment belongs to that code: it is not a doc comment or a detached
-// comment of whatever follows it.
-func trailingComments(fset *token.FileSet, f *ast.File) map[*ast.CommentGroup]bool {
-	firstCode := map[int]token.Pos{} // line -> earliest position at which a node starts or ends on it
+// codeLines returns, for every line of f on which there is code, the earliest
+// position at which an AST node starts or ends on it.
+func codeLines(fset *token.FileSet, f *ast.File) map[int]token.Pos {
+	firstCode := map[int]token.Pos{}
 	mark := func(pos token.Pos) {
 		line := fset.Position(pos).Line
 		if cur, ok := firstCode[line]; !ok || pos < cur {
@@ -257,13 +261,16 @@ func trailingComments(fset *token.FileSet, f *ast.File) map[*ast.CommentGroup]bo
 		mark(n.End())
 		return true
 	})
-	out := map[*ast.CommentGroup]bool{}
-	for _, c := range f.Comments {
-		if pos, ok := firstCode[fset.Position(c.Pos()).Line]; ok && pos <= c.Pos() {
-			out[c] = true
-		}
-	}
-	return out
+	return firstCode
+}
+
+// isTrailingComment reports whether c starts on a line on which there is code
+// before it (e.g. "X int // comment" or "var ( // comment"). Such a comment
+// belongs to that code: it is not a doc comment or a detached comment of
+// whatever follows it.
+func isTrailingComment(fset *token.FileSet, code map[int]token.Pos, c *ast.CommentGroup) bool {
+	pos, ok := code[fset.Position(c.Pos()).Line]
+	return ok && pos <= c.Pos()
 }
 
 // AddDir adds an entire directory, scanning it for go files. 'dir' should have
@@ -577,11 +584,18 @@ func (b *Builder) addCommentsToType(obj tc.Object, t *types.Type) {
 	c1 := b.priorCommentLines(obj.Pos(), 1)
 	// c1.Text() is safe if c1 is nil
 	t.CommentLines = splitLines(c1.Text())
-	if c1 == nil {
-		t.SecondClosestCommentLines = splitLines(b.priorCommentLines(obj.Pos(), 2).Text())
-	} else {
-		t.SecondClosestCommentLines = splitLines(b.priorCommentLines(c1.List[0].Slash, 2).Text())
+	from := obj.Pos()
+	if c1 != nil {
+		from = c1.List[0].Slash
 	}
+	// The second-closest comment is separated by a blank line. If there is
+	// code on the line in between, the comment two lines up belongs to that
+	// code.
+	var c2 *ast.CommentGroup
+	if !b.hasCode(from, 1) {
+		c2 = b.priorCommentLines(from, 2)
+	}
+	t.SecondClosestCommentLines = splitLines(c2.Text()) // safe even if c2 is nil
 }
 
 // findTypesIn finalizes the package import and searches through the package
@@ -679,6 +693,12 @@ func (b *Builder) importWithMode(dir string, mode build.ImportMode) (*build.Pack
 		return nil, err
 	}
 	return buildPkg, nil
+}
+
+// hasCode reports whether there is code on the line `lines` before pos.
+func (b *Builder) hasCode(pos token.Pos, lines int) bool {
+	position := b.fset.Position(pos)
+	return b.codeLines[fileLine{position.Filename, position.Line - lines}]
 }
 
 // if there's a comment on the line `lines` before pos, return its text, otherwise "".
